@@ -22,6 +22,7 @@ abbrev Hid := Nat
 inductive Op where
   | add | remove (h : Hid) | removeAll | log (m : Nat)
   | other      -- level()/enable()/disable()/configure(): take the core lock, may read the registry
+  | complete   -- complete(): core lock held while every registered handler's lock is taken in turn
   | fork       -- os.fork(): the at-fork hooks of _locks_machinery run in the forking thread
   deriving DecidableEq, Repr
 
@@ -45,8 +46,12 @@ inductive Pc where
   -- fork: k0 before the core lock; k1 holds core + `got`, acquiring `todo` in order; k2 fork point;
   -- k3 after_in_parent: handler locks `got` being released, then the core lock
   | k0 | k1 (todo got : List Hid) | k2 (got : List Hid) | k3 (got : List Hid)
-  -- level()/enable()/disable(): o0 before the lock, o1 locked
-  | o0 | o1
+  -- level()/enable()/disable(): o0 before the lock, o1 locked, o2 locked and the registry read (level() reads
+  -- it once, to update the handlers' pre-coloured formats)
+  | o0 | o1 | o2
+  -- complete(): c0 before the core lock, c1 locked, cL loop over the copied registry, cH holds h's lock
+  -- (`Handler.tasks_to_complete` runs `sink.tasks_to_complete()` under `_protected_lock`)
+  | c0 | c1 | cL (todo : List Hid) | cH (h : Hid) (todo : List Hid)
   -- remove(): r0 before the lock, r1 locked, rL loop head with the ids still to remove
   | r0 (tgt : Option Hid) | r1 (tgt : Option Hid) | rErr | rL (todo : List Hid)
   | rC (h : Hid) (todo : List Hid) (snap : List Hid)     -- copied the registry
@@ -80,6 +85,11 @@ structure St where
   stopDone : List Hid := []             -- handlers whose stop() has returned (so before remove() returns)
   sink : Hid → List (Tid × Nat) := fun _ => []   -- messages written, newest first
   started : Tid → List Nat := fun _ => []        -- messages of the log calls a thread has begun, newest first
+  -- ghost state of the CURRENT logging call of each thread (for "exactly once if stable", Conc/Exact.lean)
+  pubAtStart : Tid → List Hid := fun _ => []     -- handlers that had been published when the call began
+  snap : Tid → List Hid := fun _ => []           -- the registry snapshot the call iterates
+  skipped : Tid → List Hid := fun _ => []        -- handlers the call skipped (threshold / filter: free choice)
+  gone : Tid → List Hid := fun _ => []           -- handlers the call found stopped under their lock
 
 def upd {α : Type} (f : Nat → α) (k : Nat) (v : α) : Nat → α := fun u => if u = k then v else f u
 
@@ -96,9 +106,11 @@ def step (s : St) (t : Tid) (lab : Lab) : Option St :=
   | .idle, .start .add => some (setPc s t .a0)
   | .idle, .start (.remove h) => some (setPc s t (.r0 (some h)))
   | .idle, .start .removeAll => some (setPc s t (.r0 none))
-  | .idle, .start (.log m) => some { setPc s t (.l0 m) with started := upd s.started t (m :: s.started t) }
+  | .idle, .start (.log m) =>
+      some { setPc s t (.l0 m) with started := upd s.started t (m :: s.started t), pubAtStart := upd s.pubAtStart t s.pub }
   | .idle, .start .other => some (setPc s t .o0)
   | .idle, .start .fork => some (setPc s t .k0)
+  | .idle, .start .complete => some (setPc s t .c0)
   -- ---------------------------------------------------------------- fork (acquire_locks / release_locks)
   | .k0, .forkAcq order =>
       if s.coreLock = none then
@@ -124,8 +136,21 @@ def step (s : St) (t : Tid) (lab : Lab) : Option St :=
   | .k3 [], .relCore => some { setPc s t .idle with coreLock := none }
   -- ---------------------------------------------------------------- level / enable / disable
   | .o0, .acqCore => if s.coreLock = none then some { setPc s t .o1 with coreLock := some t } else none
-  | .o1, .rReg ids => if ids = s.reg then some (setPc s t .o1) else none
+  | .o1, .rReg ids => if ids = s.reg then some (setPc s t .o2) else none
   | .o1, .relCore => some { setPc s t .idle with coreLock := none }
+  | .o2, .relCore => some { setPc s t .idle with coreLock := none }
+  -- ---------------------------------------------------------------- complete (non-enqueued handlers)
+  | .c0, .acqCore => if s.coreLock = none then some { setPc s t .c1 with coreLock := some t } else none
+  | .c1, .rReg ids => if ids = s.reg then some (setPc s t (.cL ids)) else none
+  | .cL (h :: todo), .acqH k =>
+      if k = h then
+        (if (s.hs h).lock = none then
+          some { setPc s t (.cH h todo) with hs := upd s.hs h { s.hs h with lock := some t } }
+        else none)
+      else none
+  | .cH h todo, .relH k =>
+      if k = h then some { setPc s t (.cL todo) with hs := upd s.hs h { s.hs h with lock := none } } else none
+  | .cL [], .relCore => some { setPc s t .idle with coreLock := none }
   -- ---------------------------------------------------------------- add
   | .a0, .acqCore => if s.coreLock = none then some { setPc s t .a1 with coreLock := some t } else none
   | .a1, .rCount n => if n = s.count then some (setPc s t (.a2 n)) else none
@@ -168,8 +193,12 @@ def step (s : St) (t : Tid) (lab : Lab) : Option St :=
   -- ---------------------------------------------------------------- log
   | .l0 m, .rReg ids => if ids = s.reg then (if ids = [] then some (setPc s t .idle) else some (setPc s t (.l1 m))) else none
   | .l1 _, .early => some (setPc s t .idle)
-  | .l1 m, .rReg ids => if ids = s.reg then some (setPc s t (.lL m ids [])) else none
-  | .lL m (h :: todo) wr, .skip k => if k = h then some (setPc s t (.lL m todo wr)) else none
+  | .l1 m, .rReg ids =>
+      if ids = s.reg then
+        some { setPc s t (.lL m ids []) with snap := upd s.snap t ids, skipped := upd s.skipped t [], gone := upd s.gone t [] }
+      else none
+  | .lL m (h :: todo) wr, .skip k =>
+      if k = h then some { setPc s t (.lL m todo wr) with skipped := upd s.skipped t (h :: s.skipped t) } else none
   | .lL m (h :: todo) wr, .acqH k =>
       if k = h then
         (if (s.hs h).lock = none then
@@ -179,7 +208,9 @@ def step (s : St) (t : Tid) (lab : Lab) : Option St :=
   | .e1 m h todo wr, .rStopped k b =>
       if k = h then (if b = (s.hs h).stopped then some (setPc s t (.e2 m h todo wr b)) else none) else none
   | .e2 m h todo wr true, .relH k =>
-      if k = h then some { setPc s t (.lL m todo wr) with hs := upd s.hs h { s.hs h with lock := none } } else none
+      if k = h then
+        some { setPc s t (.lL m todo wr) with hs := upd s.hs h { s.hs h with lock := none }, gone := upd s.gone t (h :: s.gone t) }
+      else none
   | .e2 m h todo wr false, .wBegin k =>
       if k = h then some { setPc s t (.e3 m h todo wr) with sink := upd s.sink h ((t, m) :: s.sink h) } else none
   | .e3 m h todo wr, .wEnd k => if k = h then some (setPc s t (.e4 m h todo wr)) else none
@@ -199,13 +230,14 @@ def run (s : St) : List (Tid × Lab) → St
 
 /-- a thread is *blocked* when it is waiting for a lock somebody holds -/
 def waitsCore : Pc → Bool
-  | .a0 | .a5 _ | .r0 _ | .o0 | .k0 => true
+  | .a0 | .a5 _ | .r0 _ | .o0 | .k0 | .c0 => true
   | _ => false
 
 def waitsH : Pc → Option Hid
   | .rP h _ => some h
   | .lL _ (h :: _) _ => some h
   | .k1 (h :: _) _ => some h
+  | .cL (h :: _) => some h
   | _ => none
 
 end Conc
